@@ -407,6 +407,37 @@ fn edge_triples(n: usize) -> Vec<Triple> {
     out
 }
 
+/// unary run x cursor alignment: s2 = v X^j with |v| = 128 r + low for every run length r in 0..=95 at every bit
+/// alignment (j = 1..=8 nine-bit zeros precede it), s1 = 0; accepted iff v^2 <= bound
+fn run_alignment_triples(n: usize) -> Vec<Triple> {
+    let bound = sig_bound(n);
+    let salt = vec![0x27u8; 40];
+    let msg = b"runs".to_vec();
+    let mut sm = salt.clone();
+    sm.extend_from_slice(&msg);
+    let c = keccak::hash_to_point(&sm, n, None);
+    let zero = vec![0i64; n];
+    let mut out = vec![];
+    for j in 1..=8usize {
+        for r in 0..=95i64 {
+            for low in [0i64, 127] {
+                for sgn in [1i64, -1] {
+                    let v = sgn * (128 * r + low);
+                    if v == 0 {
+                        continue;
+                    }
+                    let mut s2 = vec![0i64; n];
+                    s2[j] = v;
+                    let Some(body) = body_of(n, &s2) else { continue };
+                    let Some(h) = solve_h(&c, &zero, &s2) else { continue };
+                    out.push(Triple { n, msg: msg.clone(), sig: encode_sig(n, &salt, &body), pk: keycodec::pk_encode(&h), expect: Some(v * v <= bound), tag: format!("run-alignment:n={},{};run={},align={},low={}", n, if v * v <= bound { "in" } else { "out" }, r, (9 * j) % 8, low) });
+                }
+            }
+        }
+    }
+    out
+}
+
 /// message length ladder: the verdict at the bound and one above it must not depend on how long the message is
 fn length_triples(n: usize, thorough: bool) -> Vec<Triple> {
     use rayon::prelude::*;
@@ -662,6 +693,7 @@ fn one_variant<V: Variant>(ctx: &mut Ctx, tier: Tier) {
     }
     run_triples_g::<V>(ctx, &format!("big_s2_{}", n), "s2 = a X^i with a in {+-6144, +-6145, +-8192, +-12159, +-12160, +-12288, +-12289, 12290, +-24578} (outside the centred range of Z_q), i in {0,1,n/2,n-1}, s1 small: the squared norm is over the decoded integers", big_s2_triples(n), false);
     run_triples::<V>(ctx, &format!("dense_{}", n), "dense short (s1,s2) of honest magnitude tuned to total norm B-1, B, B+1, B/2", dense_triples(n));
+    run_triples::<V>(ctx, &format!("run_alignment_{}", n), "s2 = +-(128 r + low) X^j for every unary run length r in 0..=95, low in {0,127}, j in 1..=8 (all eight cursor alignments), s1 = 0: accepted iff the square is within the bound", run_alignment_triples(n));
     run_triples::<V>(ctx, &format!("message_length_ladder_{}", n), &format!("messages of every length 0..={} and around 2^12 .. 2^18 (position-dependent content), s2 = +-X^(len mod n), total norm B and B+1", if tier.thorough() { 2100 } else { 520 }), length_triples(n, tier.thorough()));
     run_triples::<V>(ctx, &format!("malformed_{}", n), "otherwise acceptable signature with: negative zero, a set padding bit at each of the next 24 positions and the last bit, unary run of the last / a middle coefficient extended by 1/94/95/256/512, one coefficient short/extra, unterminated last coefficient", malformed_triples(n));
     if tier.thorough() {
